@@ -13,6 +13,10 @@ def run(ctx):
     # sizes: very long tokens and digit runs (Python's int() refuses more than 4300 digits), long flat lists
     big = ['1' * 5000, 'a ' + '1' * 4301 + '>f', 'a >&' + '9' * 4400, 'a <&' + '0' * 4301 + '-', 'a' * 8000, '"' + 'b' * 8000 + '"', "'" + 'c ' * 5000 + "'",
            'a ' * 3000, 'a;' * 1500, 'a |' * 600 + 'b', 'x=' + '1' * 6000, '$' + 'v' * 6000, '${' + 'v' * 6000 + '}', 'a #' + 'c' * 10000, 'a <<E\n' + 'x\n' * 3000 + 'E\n']
+    # long runs of one layout or quoting feature (nothing but substitution nesting may cost interpreter stack)
+    cont = '\\\n' * 2500
+    big += ['a ' + cont + ' b', 'a' + cont + 'b', '"a' + cont + 'b"', 'a $(b ' + cont + ' c)', 'a <<E\nx' + cont + 'y\nE\n', cont + 'a', 'a `b' + cont + '`', 'a ${v' + cont + '}',
+            'a ' + '\n' * 3000 + 'b', ' ' * 6000 + 'a', 'a' + '\\ ' * 3000, 'a ' + "''" * 3000, 'a ' + '""' * 3000, 'a ' + '$v' * 3000, 'a ' + '~' * 3000, '! ' * 1500 + 'a', 'a ' + '>f ' * 1500]
     # "all Unicode strings": characters outside ASCII in every token position (the model is exact on ASCII only: for these
     # inputs only the implementation's outcome class is judged, there is no correspondence to compare)
     uni = []
